@@ -58,6 +58,16 @@ CHECKS = {
              "(value correspondence is C05); builtins aliases owe no import; name capture by a later identical identifier is outside the "
              "per-opcode obligation (DESIGN C03); refutations are replayed with replay/event_diff.py (reference VM under inert stubs).",
         ref="§C03"),
+    "C14": dict(
+        text="Proof: class invariant of Pickled (opcode list private; _ast empty or INTERP(opcode sequence); _properties empty or the "
+             "properties of that _ast) is verified after __init__ and every own method; every method that mutates the opcode list is verified "
+             "to clear both caches; the MutableSequence mix-ins (append, extend, pop, remove, reverse, clear, __iadd__, index), read from the "
+             "interpreter's _collections_abc.py, are verified to reach the list only through the three primitives and so keep the invariant "
+             "(unbounded loops by invariant); dumps()/dump() are verified to be the concatenation of the opcodes' data in order; a scan "
+             "obligation shows nothing outside the class writes these fields. Histories of any length follow by induction on operations.",
+        note="Trusted: INTERP/ASTProperties abstract (determinism is C13); opcode objects immutable once in a Pickled; slice-valued indices "
+             "outside the verified signature; injection helpers are covered under C08; refutations are replayed by replay/edits_diff.py.",
+        ref="§C14"),
 }
 NA_REASON = "check not built yet (work in progress; see DESIGN.md)"
 
